@@ -18,6 +18,22 @@ CHECKS['C19'] = dict(level='model_checking', engine='sched',
    technique='stateless schedule exploration (DFS, preemption- and deviation-bounded) of the real stream pool with fake healthy/slow/blocked/failing streams under a controlled scheduler (testing/synctest + sync/atomic shims)',
    text='Every schedule (preemption bound 3/4, deviation bound 1/2) of 2-4 concurrent Broadcast/SendById/Send/tag/peer-close/AddStream operations over real pools holding healthy, slow, blocked-forever and failing fake streams with queue sizes 1..3 is executed; the blocked stream is never released, so a caller that waits on it is reported as a deadlock; per-stream delivery order, queue occupancy (reference computed from the observed acceptance attempts), delivery to healthy streams, index cleanup after stream end and the pool logger Fatal are checked on every execution.',
    note='interleaving granularity = pool mutex acquisitions, stream.closed atomic operations, MsgSend/dial events; the third-party mb queue is not instrumented; one stream per peer where acceptance order is judged', ref='5 C19')
+CHECKS['C04'] = dict(level='model_checking', engine='statesearch',
+   technique='explicit-state BFS over ACL states of the real validating list; full hand-signed record alphabet (single and two-content records) offered in every state; privilege invariants judged on every accepted transition',
+   text='From 5 scripted seed states (every role, live/revoked invites of both types, an owner-made Admin invite, pending join / admin-leave / writer-leave requests) and all states reachable from them by accepted crafted records (depth 1 quick / 2 thorough, abstract-state dedup) the complete crafted alphabet - 16 content kinds x 8 authors x targets x 6 permission levels x invite/request ids incl. unknown and cross-kind ids, plus all ordered pairs of ~35 representative contents as one record - is validated by the real list; every acceptance is judged against the owner/admin/member/outsider/guest invariants and cross-checked through AddRawRecord and a rebuild from the raw log.',
+   note='8 accounts; observer identity is a non-member so crafted key material may be placeholders; abstract-state dedup drops record ids', ref='5 C04')
+CHECKS['C13'] = dict(level='exploration', engine='mutate',
+   technique='bounded exhaustive mutation enumeration (every byte offset x value set, every truncation, every id character, every field of the signed messages, all cross-splices, re-signed single-defect forgeries) against the real payload validators; exhaustive 1-1 key-pair enumeration',
+   text='For payloads of all six constructors every single-byte / single-field / id-character mutation of each of the six parts, every cross-splice of parts from two valid spaces and 38 re-signed single-binding forgeries are validated by the real ValidateSpaceStorageCreatePayload / ValidateSpaceHeader; a reference verdict (hash / signature / cross-part pinned / informational) decides each; one-to-one derivation is compared for all ordered pairs of 8 key pairs and both types.',
+   note='seeds from deterministic keys; wrapper re-encodings with recomputed ids that no other part pins are counted as informational (see DESIGN C13), not as violations', ref='5 C13')
+CHECKS['C18'] = dict(level='exploration', engine='statesearch',
+   technique='exhaustive configuration enumeration (node sets x type mixes x list orders x viewpoints x space-id forms x configuration arrival paths) on the real nodeconf service and chash ring',
+   text='Every configuration up to N nodes (all orders N<=3 quick / N<=5 thorough, rotations+reverse above) with 4 type mixes is loaded into the real nodeconf service from every viewpoint (each node and a client; via Init, via the Store and via a runtime update) and asked about 53 space-id forms; responsible set, IsResponsible and NodeIds are compared with a reference ring built from the sync nodes only.',
+   note='replication factor 3, 3000 partitions as in the code; reference ring = same chash library fed with the sync-node set only', ref='5 C18')
+CHECKS['C20'] = dict(level='exploration', engine='statesearch',
+   technique='exhaustive enumeration of component lists x kinds x single failure points x close-error subsets x child-container nestings on the real app container vs a list-based reference model',
+   text='All component lists up to 4 (quick) / 5 (thorough) with every plain/runnable mix, every single Init/Run failure point, every subset of failing Close calls, and nested child containers (depth <= 2) with shadowed names and by-name / by-type lookups from inside Init are run on the real app.App; the call log, the returned error and every lookup result are compared with a boring reference.',
+   note='components return immediately; executed inside a synctest bubble so the container watchdog timers never depend on wall clock', ref='5 C20')
 NOT_YET = 'check not built yet (work in progress, see DESIGN.md section 10)'
 m = {
  'version': 1,
